@@ -164,6 +164,20 @@ func loadEngine(repo, verif string) (*Engine, error) {
 	if err := e.loadSpecFiles(filepath.Join(verif, "spec", "smt")); err != nil {
 		return nil, err
 	}
+	// every contract in a package's contract file must name a function of that package (a contract that
+	// silently attaches to nothing would be a vacuity hole); `check` reports these per property as well
+	var unknown []string
+	for _, ps := range e.specs {
+		for _, fs := range ps.Funcs {
+			if fs.Trusted && e.findFunc(ps, fs) == nil {
+				unknown = append(unknown, ps.PkgPath+"."+fs.Name)
+			}
+		}
+	}
+	if len(unknown) > 0 {
+		sort.Strings(unknown)
+		return nil, fmt.Errorf("trusted contract(s) name no function of their package (put contracts of other packages in spec/trusted): %s", strings.Join(unknown, ", "))
+	}
 	return e, nil
 }
 
@@ -273,6 +287,20 @@ func (e *Engine) resolveInvoke(c *ssa.CallCommon) *ssa.Function {
 	}
 	// external interface method (error.Error, io.Writer...): no body and no contract
 	return nil
+}
+
+// boundType returns the concrete type string an interface type is bound to ("" if none).
+func (e *Engine) boundType(it types.Type) string {
+	n := namedOf(it)
+	if n == nil {
+		return ""
+	}
+	if n.Obj().Pkg() != nil {
+		if b, ok := e.binds[n.Obj().Pkg().Name()+"."+n.Obj().Name()]; ok {
+			return b
+		}
+	}
+	return e.binds[n.Obj().Name()]
 }
 
 // lookupMethod finds (*pkg.Type).method given "pkgpath.Type" or "*pkgpath.Type".
